@@ -167,7 +167,9 @@ def run_case(spec, ctx):
                         if a[sect].get(k) != c[sect].get(k):
                             diff["%s[%s]" % (sect, k)] = {"single_pass": a[sect].get(k), name: c[sect].get(k)}
                 mech = "result-differs-under-" + name.split(":")[0]
-                if spec["host"] and any("signal only works in main thread" in json.dumps(v) for v in diff.values()):
+                if any("dictionary changed size during iteration" in json.dumps(v) for v in diff.values()):
+                    mech = "shared-broker-iterated-while-worker-threads-fill-it"
+                elif spec["host"] and any("signal only works in main thread" in json.dumps(v) for v in diff.values()):
                     mech = "datasource-fails-on-worker-thread-signal"
                 ctx.violation(mech, {"driver": name, "diff": dict(list(diff.items())[:4])})
             bc = body_counts(events, len(b.comps))
@@ -223,6 +225,25 @@ def run_case(spec, ctx):
             elif x < 0.7:
                 time.sleep(0.0002)
         b.sleep[0] = sleeper
+        # a tiny switch interval makes the interpreter hand the GIL over every few byte codes: far more
+        # distinct interleavings of the worker threads than the default 5 ms slice produces
+        old_switch = sys.getswitchinterval()
+        sys.setswitchinterval(1e-6 if (spec["ext_seed"] % 3) else old_switch)
+        # yield injection at a real suspension point: Broker.__iter__/keys/items/values are Python-level methods, a
+        # thread switch can happen between the creation of the dictionary iterator and its first step; giving the
+        # other workers the GIL exactly there makes any iteration over a shared broker during a run visible
+        saved_iters = {}
+        for meth in ("__iter__", "keys", "items", "values"):
+            saved_iters[meth] = getattr(dr.Broker, meth)
+
+            def mk(orig):
+                def yielding(self_):
+                    it = iter(orig(self_))
+                    ctx.count("broker_iterations_during_pool_runs")
+                    time.sleep(0.0002)
+                    return it
+                return yielding
+            setattr(dr.Broker, meth, mk(saved_iters[meth]))
         try:
             for w in POOLS:
                 variants = ["shared"] if (spec["host"] or spec["store_skips"]) else ["fresh", "shared"]
@@ -248,6 +269,9 @@ def run_case(spec, ctx):
                     ctx.count("pool_runs")
         finally:
             b.sleep[0] = None
+            sys.setswitchinterval(old_switch)
+            for meth, orig in saved_iters.items():
+                setattr(dr.Broker, meth, orig)
         if spec["host"]:
             ctx.count("graphs_with_host_context")
     finally:
